@@ -11,7 +11,7 @@ from vlib.framework import BaseCheck, CaseResult
 
 IDLE, OPEN, BUSY, CLOSED = 1, 2, 3, 4
 SERIAL_SKELETONS = ['open', 'one', 'two', 'after-timeout', 'chunked', 'timeout-in-write']
-MUX_SKELETONS = ['open', 'one', 'three', 'timed-out+one', 'queued', 'ping']
+MUX_SKELETONS = ['open', 'one', 'three', 'timed-out+one', 'queued', 'ping', 'silent-inflight']
 FAULTS = ['error', 'eof', 'refuse', 'silence']
 OPS = [('connect', 0)] + [('send', i) for i in range(4)] + [('recv', i) for i in range(10)]
 
@@ -44,7 +44,7 @@ class C08(BaseCheck):
   LEVEL = 'fault_enumeration'
   RULE = ('enumerated space = {serial Thrift transport x skeletons open/one/two/after-timeout/chunked/timeout-in-write (deadline fires inside a blocked partial write), '
           'ThriftMux transport x skeletons open(incl. initial ping)/one/three concurrent/timed-out+one/'
-          'queued(stalled writer)/ping} + {reply and close (FIN/RST) in one instant on request 0/1/2} x connection ordinal {0,1} x op {connect; send 0-3; recv 0-9} x fault '
+          'queued(stalled writer)/ping/silent-inflight (peer goes silent with a request in flight and a timed-out one unacknowledged)} + {reply and close (FIN/RST) in one instant on request 0/1/2} x connection ordinal {0,1} x op {connect; send 0-3; recv 0-9} x fault '
           '{exception, EOF, refusal, silence}; quick and thorough both sweep it completely (thorough adds '
           'seeded timing variants per point). A point whose planned fault never fires (the skeleton performs '
           'fewer operations) is counted as not reached. Oracle per run: every request gets exactly one '
@@ -61,7 +61,7 @@ class C08(BaseCheck):
              'scales.scales_socket:ScalesSocket.open')
   REQUIRED_ANCHORS = ANCHORS
   REQUIRED_CLASSES = ('thrift', 'mux', 'fault:connect', 'fault:send', 'fault:recv', 'kind:error', 'kind:eof',
-                      'kind:refuse', 'kind:silence', 'reconnect-fault', 'probe', 'ping-silence', 'reply-and-close-same-instant', 'timeout-in-write')
+                      'kind:refuse', 'kind:silence', 'reconnect-fault', 'probe', 'ping-silence', 'reply-and-close-same-instant', 'timeout-in-write', 'silent-with-inflight')
   ASSUMPTIONS = ('a silence fault (peer stops answering without closing) legitimately leaves the transport '
                  'open; only the probe clause applies then',)
   QUICK_WALL = 180
@@ -279,6 +279,28 @@ class C08(BaseCheck):
           if transport.state != CLOSED or not faults:
             out.violate('ping:no-shutdown', 'a ping went unanswered for more than 5 s but the transport reports '
                         'state %s (fault signals: %d)' % (transport.state, len(faults)), facts0)
+      elif sk == 'silent-inflight':
+        # the peer goes completely silent (connection stays up) while one request is in flight
+        # and another has timed out without its discard being acknowledged: the next ping
+        # (every 30-40 s, 5 s grace) must detect it
+        classes.add('silent-with-inflight')
+        request()
+        env.advance(1.0)
+        plan['ping-drop-after'] = len(srv.pings)
+        silent_from = env.now
+        r_inflight = request(T=600.0, act={'drop': True})
+        request(T=0.05, act={'drop': True})
+        env.advance(40.0 + 5.0 + 1.0)
+        if not net.faults_fired and not open_failed:
+          out.obligations += 2
+          if transport.state != CLOSED or not faults:
+            out.violate('ping:no-shutdown', 'the peer has been silent for %.0fs with a request in flight (pings are due '
+                        'every 30-40 s, 5 s grace) but the transport reports state %s (fault signals: %d, pings '
+                        'seen by the peer since: %d)' % (env.now - silent_from, transport.state, len(faults),
+                                                         len(srv.pings) - plan['ping-drop-after']), facts0)
+          elif len(r_inflight['deliveries']) != 1:
+            out.violate('request:completions', 'the request in flight on the silent connection got %d completions' % (
+              len(r_inflight['deliveries'])), dict(facts0, n=len(r_inflight['deliveries'])))
     env.advance(3.0)      # quiet tail
 
     # ---------------------------------------------------------------- oracle
